@@ -238,8 +238,8 @@ func verifGenScalar(tag string, kind int, full bool) verifScalar {
 		e := verifFloatTable[i]
 		return verifScalar{e.v, e.val, true, e.ts, true}
 	case 3:
-		// a Python long / any Python 3 int >= 2^31: timestamps are formatted with %d; as a value see VerifC13LongValue
-		return verifScalar{verifBigInt(), "18446744073709551617", false, "18446744073709551617", true}
+		// a Python long / any Python 3 int >= 2^31: formatted with %d (as a value only generated by VerifC13LongValue)
+		return verifScalar{verifBigInt(), "18446744073709551617", true, "18446744073709551617", true}
 	case 4:
 		return verifScalar{v: ogorek.None{}}
 	case 5:
@@ -274,7 +274,11 @@ func verifGenItem(tag string, full bool) (item interface{}, valid bool, line str
 		outerTuple, innerTuple := true, true
 		if verifPick(tag+".vary", 2) == 0 {
 			ts = verifGenScalar(tag+".ts", verifPick(tag+".tskind", verifScalarKinds), full)
-			val = verifGenScalar(tag+".val", verifPick(tag+".valkind", verifScalarKinds), full)
+			vk := verifPick(tag+".valkind", verifScalarKinds-1) // a long as value is VerifC13LongValue's case
+			if vk >= 3 {
+				vk++
+			}
+			val = verifGenScalar(tag+".val", vk, full)
 		} else {
 			ts = verifGenScalar(tag+".ts", 1, false)
 			val = verifGenScalar(tag+".val", 2, false)
